@@ -61,6 +61,67 @@ type waitShape struct {
 	sel                        *ssa.Select
 	iDone, iTimer, iCtx, iChan int
 	timerMake                  ssa.Instruction // call creating the deadline channel / timer
+	// combined: the try's deadline and the caller's context share one case, `<-tryCtx.Done()` with
+	// tryCtx, stop := context.WithTimeout(ctx, timeout); the case decides by the CALLER's context:
+	// `if err := ctx.Err(); err != nil { return err }` (ctxBlock), else the deadline of the try passed (dlBlock)
+	combined         bool
+	dlBlock, ctxBlok *ssa.BasicBlock
+	combinedWhy      string
+}
+
+// timerCase / ctxCase: the block executed for the try's deadline / for the end of the caller's context
+func (w *waitShape) timerCase() *ssa.BasicBlock {
+	if w.combined {
+		return w.dlBlock
+	}
+	return selectCaseBlock(w.sel, w.iTimer)
+}
+
+func (w *waitShape) ctxCase() *ssa.BasicBlock {
+	if w.combined {
+		return w.ctxBlok
+	}
+	return selectCaseBlock(w.sel, w.iCtx)
+}
+
+// resolveCombined: case i of the wait select receives from Done() of a context derived with
+// context.WithTimeout(parent, d); fills the combined shape when the case block tests parent.Err()
+func (w *waitShape) resolveCombined(i int, done *ssa.Call, same func(a, b ssa.Value) bool) bool {
+	ex, ok := done.Call.Value.(*ssa.Extract)
+	if !ok || ex.Index != 0 {
+		return false
+	}
+	mk, ok := ex.Tuple.(*ssa.Call)
+	if !ok || !isFuncCall(mk.Common(), "context", "WithTimeout") || len(mk.Call.Args) != 2 {
+		return false
+	}
+	parent := mk.Call.Args[0]
+	b := selectCaseBlock(w.sel, i)
+	if b == nil {
+		w.combinedWhy = "case block of the derived context not found"
+		return true
+	}
+	iff := ifOf(b)
+	if iff == nil {
+		w.combinedWhy = "the case on the derived context does not ask the caller's context whether it ended"
+		return true
+	}
+	var errCall *ssa.Call
+	nl, nn, okE := nilEdgesOf(iff, func(v ssa.Value) bool {
+		cl, isCall := v.(*ssa.Call)
+		if isCall && cl.Call.IsInvoke() && cl.Call.Method.Name() == "Err" && same(cl.Call.Value, parent) && cl.Block() == b {
+			errCall = cl
+			return true
+		}
+		return false
+	})
+	if !okE || errCall == nil {
+		w.combinedWhy = "the case on the derived context is not decided by Err() of the caller's context (the derived context also ends by its own deadline when the caller's does)"
+		return true
+	}
+	w.combined, w.iTimer, w.iCtx, w.timerMake = true, i, i, mk
+	w.dlBlock, w.ctxBlok = nl.To, nn.To
+	return true
 }
 
 // caseBlock: the block executed when select index == i
@@ -114,6 +175,9 @@ func resolveWait(c *Ctx, a *clientAnchors) (*waitShape, string) {
 		default:
 			if cl, ok := v.(*ssa.Call); ok {
 				if cl.Call.IsInvoke() && cl.Call.Method.Name() == "Done" && namedIs(cl.Call.Value.Type(), "context", "Context") {
+					if w.resolveCombined(i, cl, func(x, y ssa.Value) bool { return x == y || c.Sx().Of(x).String() == c.Sx().Of(y).String() }) {
+						continue
+					}
 					w.iCtx = i
 					continue
 				}
@@ -174,12 +238,14 @@ func c11Wait(c *Ctx, a *clientAnchors) {
 	sel := w.sel
 	r.Check(sel.Blocking, "C11-K1", key("wait select is blocking (no default case)"), c.P.ipos(sel), "Select.Blocking", "the wait select has a default case: the call spins")
 	r.Check(w.iDone >= 0, "C11-K1", key("waits on the client's done channel"), c.P.ipos(sel), "select state", "the wait select has no case on Client.done: Close cannot end a pending call")
+	if w.combinedWhy != "" {
+		r.Violation("C11-K1", key("the case on the try's derived context tells the caller's end from the try's deadline"), c.P.ipos(sel), w.combinedWhy+": a caller's deadline is taken for a try's (the call retransmits and ends with the wrong error) or the reverse")
+	}
 	r.Check(w.iTimer >= 0, "C11-K1", key("waits on a deadline"), c.P.ipos(sel), "select state", "the wait select has no deadline case: a silent server blocks the call forever")
 	r.Check(w.iCtx >= 0, "C11-K1", key("waits on ctx.Done()"), c.P.ipos(sel), "select state", "the wait select has no ctx.Done() case: cancellation is ignored")
 	r.Check(w.iChan >= 0, "C11-K1", key("waits on the transaction channel"), c.P.ipos(sel), "select state", "the wait select does not receive from the channel returned by send")
 	// what each case returns
-	retOf := func(i int) (string, *ssa.BasicBlock) {
-		b := selectCaseBlock(sel, i)
+	retOfBlock := func(b *ssa.BasicBlock) (string, *ssa.BasicBlock) {
 		if b == nil {
 			return "?", nil
 		}
@@ -202,21 +268,21 @@ func c11Wait(c *Ctx, a *clientAnchors) {
 		return ok
 	}
 	if w.iDone >= 0 {
-		s, b := retOf(w.iDone)
+		s, b := retOfBlock(selectCaseBlock(sel, w.iDone))
 		r.Check(endsInReturn(b) && s == "load(global("+a.short+".ErrNoResponse))", "C11-K1", key("done case returns ErrNoResponse"), c.P.ipos(sel), "symx", "the case on Client.done yields "+s)
 	}
 	if w.iTimer >= 0 {
-		s, b := retOf(w.iTimer)
+		s, b := retOfBlock(w.timerCase())
 		r.Check(endsInReturn(b) && s == "load(global("+a.short+".errDeadlineExceeded))", "C11-K1", key("deadline case returns the internal deadline error"), c.P.ipos(sel), "symx", "the deadline case yields "+s)
 		// the duration is the try's timeout parameter
-		if cl, ok := w.timerMake.(*ssa.Call); ok && len(cl.Call.Args) == 1 {
-			got := sx.Of(cl.Call.Args[0]).String()
+		if cl, ok := w.timerMake.(*ssa.Call); ok && (len(cl.Call.Args) == 1 || w.combined) {
+			got := sx.Of(cl.Call.Args[len(cl.Call.Args)-1]).String()
 			want := sx.Of(fn.Params[0]).String()
 			r.Check(got == want, "C12-K1", key("deadline of a try is the timeout handed in by the retry driver"), c.P.ipos(cl), "symx", "deadline duration is "+got+", want "+want)
 		}
 	}
 	if w.iCtx >= 0 {
-		s, b := retOf(w.iCtx)
+		s, b := retOfBlock(w.ctxCase())
 		okc := endsInReturn(b) && strings.HasPrefix(s, "call[invoke context.Context.Err](")
 		r.Check(okc, "C11-K1", key("ctx case returns ctx.Err()"), c.P.ipos(sel), "symx", "the ctx.Done() case yields "+s+" (anything but ctx.Err() is misread by the retry driver or the caller)")
 	}
@@ -1314,7 +1380,7 @@ func c12DeadlineSource(c *Ctx, a *clientAnchors) {
 		r.Undecided("C12-K1", key("deadline case"), c.P.pos(a.try.Pos()), "wait select not resolved: "+why)
 		return
 	}
-	tb := selectCaseBlock(w.sel, w.iTimer)
+	tb := w.timerCase()
 	n := 0
 	allInstrs(a.try, func(in ssa.Instruction) {
 		u, ok := in.(*ssa.UnOp)
@@ -1509,7 +1575,7 @@ func c12IdentityConsistent(c *Ctx, a *clientAnchors, byIdentity bool) {
 		r.Undecided("C12-K1", key, c.P.pos(a.try.Pos()), "wait select not resolved: "+why)
 		return
 	}
-	tb := selectCaseBlock(w.sel, w.iTimer)
+	tb := w.timerCase()
 	dl := "load(global(" + a.short + ".errDeadlineExceeded))"
 	ok, got := false, ""
 	if tb != nil {
